@@ -1,6 +1,7 @@
 package props
 
 import (
+	"context"
 	"fmt"
 	"net/http"
 	"sort"
@@ -16,19 +17,20 @@ func init() {
 }
 
 type c19Req struct {
-	Spec    int    `json:"spec"`
-	Method  string `json:"method"`
-	Path    string `json:"path"`
-	Tok     string `json:"tok"`
-	Origin  string `json:"origin,omitempty"`
-	ACRM    string `json:"acrm,omitempty"`
-	ACRH    string `json:"acrh,omitempty"`
-	AE      string `json:"accept_encoding,omitempty"`
-	Accept  string `json:"accept,omitempty"`
-	Body    bool   `json:"body,omitempty"`
-	BodyEnc string `json:"body_content_encoding,omitempty"` // the POST entity is sent gzip- or deflate-coded
-	Form    bool   `json:"form_body,omitempty"`             // application/x-www-form-urlencoded body read with BodyParameter
-	NoCT    bool   `json:"no_content_type,omitempty"`       // POST without a Content-Type (route allows that)
+	Spec     int    `json:"spec"`
+	Method   string `json:"method"`
+	Path     string `json:"path"`
+	Tok      string `json:"tok"`
+	Origin   string `json:"origin,omitempty"`
+	ACRM     string `json:"acrm,omitempty"`
+	ACRH     string `json:"acrh,omitempty"`
+	AE       string `json:"accept_encoding,omitempty"`
+	Accept   string `json:"accept,omitempty"`
+	Body     bool   `json:"body,omitempty"`
+	BodyEnc  string `json:"body_content_encoding,omitempty"` // the POST entity is sent gzip- or deflate-coded
+	Form     bool   `json:"form_body,omitempty"`             // application/x-www-form-urlencoded body read with BodyParameter
+	NoCT     bool   `json:"no_content_type,omitempty"`       // POST without a Content-Type (route allows that)
+	CancelRd int    `json:"context_cancelled_at_body_read,omitempty"`
 }
 
 type c19Scen struct {
@@ -104,6 +106,9 @@ func genC19(x *Ctx) *c19Scen {
 		r.Body = r.Method == "POST"
 		if r.Body {
 			r.BodyEnc = []string{"gzip", "", "deflate"}[tp.G(3)]
+		}
+		if r.Body && tp.Chance(150) {
+			r.CancelRd = 1 + tp.G(3)
 		}
 		r.Form = strings.HasPrefix(sh.p, "/x/form/")
 		r.NoCT = strings.HasPrefix(sh.p, "/x/nct/")
@@ -351,7 +356,18 @@ func (r *c19Req) serveGone(c *restful.Container, entry int, t *sim.Task, id int,
 			data = Zlib(data)
 			hdr["Content-Encoding"] = "deflate"
 		}
-		hr = NewReq(r.Method, r.Path, hdr, &sim.SimBody{T: t, Data: data, Chunks: []int{37, 101}}, int64(len(data)), id)
+		body := &sim.SimBody{T: t, Data: data, Chunks: []int{37, 101}}
+		hr = NewReq(r.Method, r.Path, hdr, body, int64(len(data)), id)
+		if r.CancelRd > 0 {
+			ctx, cancel := context.WithCancel(hr.Context())
+			hr = hr.WithContext(ctx)
+			k := r.CancelRd
+			body.OnRead = func(n int) {
+				if n == k {
+					cancel()
+				}
+			}
+		}
 	}
 	w := sim.NewSimWriter(t)
 	if gone > 0 {
